@@ -183,6 +183,67 @@ class Cleanup(Part):
         return Outcome(viol, labels, nontrivial)
 
 
+@st.composite
+def proc_cases(draw):
+    """a run whose later layers are resumed in subprocesses, while tests of the first layer leave new orphans behind: every
+    runner process cleans up before *its* discovery"""
+    nlayers = draw(st.integers(2, 3))
+    layers = [{'name': n, 'kind': 'class', 'bases': [], 'hooks': ['setUp', 'tearDown']} for n in ('LA', 'LB', 'LC')[:nlayers]]
+    layers[0]['faults'] = {'tearDown': 'NIE'}
+    files = []
+    tests_a = []
+    for i in range(draw(st.integers(1, 2))):
+        shape = draw(st.sampled_from(['orphan.pyc', 'orphan.pyo', 'with-source', 'in-subdir', 'in-pycache', 'lookalike']))
+        rel = {'orphan.pyc': 'zqlate%d.pyc', 'orphan.pyo': 'zqlate%d.pyo', 'with-source': 'zqsrc%d.pyc',
+               'in-subdir': 'zqsub/zqdeep%d.pyc', 'in-pycache': '__pycache__/zqc%d.cpython-312.pyc',
+               'lookalike': 'zqlook%d.pyc.bak'}[shape] % i
+        acts = [['write_file', rel, 'stale']]
+        if shape == 'with-source':
+            acts.append(['write_file', rel[:-1], '# source\n'])
+        files.append({'rel': rel, 'shape': shape})
+        tests_a.append({'n': 'test_w%d' % i, 'k': 'pass', 'acts': {'body': acts}})
+    ch = [{'t': 'c', 'name': 'TC1', 'layer': 0, 'tests': tests_a}]
+    for i in range(1, nlayers):
+        ch.append({'t': 'c', 'name': 'TC%d' % (i + 1), 'layer': i, 'tests': [{'n': 'test_x', 'k': 'pass'}]})
+    return {'spec': {'layers': layers, 'modules': [{'name': 'a', 'tree': {'t': 's', 'ch': ch}}]}, 'files': files,
+            'opt': draw(st.sampled_from(['none', 'none', 'none', '-k', '--usecompiled']))}
+
+
+class Procs(Part):
+    name = 'procs'
+    examples = {'quick': 48, 'thorough': 800}
+
+    def strategy(self, tier):
+        return proc_cases()
+
+    def execute(self, case):
+        spec = common.with_prefix(case['spec'])
+        viol = []
+        args = [] if case['opt'] == 'none' else [case['opt']]
+        with drive.World(spec) as W:
+            run = W.run(args)
+            left = {f['rel']: os.path.exists(os.path.join(W.src, f['rel'])) for f in case['files']}
+        if run.timeout or run.exit not in (0, 1):
+            return Outcome([('C15/run-aborted', 'exit status %s: %s' % (run.exit, run.err[-300:]))], [], False)
+        wrote = {e['path']: e['t'] for e in run.trace if e['ev'] == 'wrote'}
+        child_starts = [e['t'] for e in run.trace if e['ev'] == 'child']
+        labels = ['opt:' + case['opt']]
+        for f in case['files']:
+            rel = f['rel']
+            if rel not in wrote:
+                continue
+            later_child = any(t > wrote[rel] for t in child_starts)
+            if later_child:
+                labels.append('child-started-after-' + f['shape'])
+            must_go = f['shape'] in ('orphan.pyc', 'orphan.pyo', 'in-subdir') and case['opt'] == 'none' and later_child
+            if must_go and left[rel]:
+                viol.append(('C15/orphan-kept-by-subprocess', 'orphan %s appeared during the run; a layer subprocess started '
+                             'afterwards but did not remove it before its discovery' % rel))
+            if not must_go and not left[rel]:
+                viol.append(('C15/deleted-non-orphan', 'removed %s (%s, option %s)' % (rel, f['shape'], case['opt'])))
+        return Outcome(viol, labels, any(x.startswith('child-started-after-orphan') for x in labels))
+
+
 class C15(Prop):
     id = 'C15'
     registered = True
@@ -199,7 +260,7 @@ class C15(Prop):
             'one/dup/nested/sub-only, optional symlinked directory (named zqlink, __pycache__, .git, CVS or zq-link), options none/-k/--usecompiled, optional extra '
             '--ignore_dir. Non-trivial = the tree has >=1 true orphan, >=1 protected .pyc/.pyo and >=1 look-alike.')
     assumptions = ('PYTHONDONTWRITEBYTECODE=1 in the workers (the interpreter itself creates no __pycache__)',)
-    parts = (Cleanup(),)
+    parts = (Cleanup(), Procs())
 
 
 PROP = C15()
